@@ -21,7 +21,10 @@ PiecesA(al, t) == R(DCfg(al), t, NilC, <<>>)[1]
 Seqs(S, n) == UNION {[1..k -> S] : k \in 0..n}
 
 (* ------------------------------ C13: lists ------------------------------ *)
-ItemKinds == {"x", "nil", "null", "estmt", "elist", "eunion", "etag", "nnull", "ecustom", "empty"}
+ItemKinds == {"x", "nil", "null", "estmt", "elist", "eunion", "etag", "nnull", "ecustom", "empty", "deepnull"}
+\* a null that sits many statements deep: Add(Add(... Null() ...))
+RECURSIVE DeepNull(_)
+DeepNull(k) == IF k = 0 THEN Stmt(<<NullT>>) ELSE Stmt(<<DeepNull(k - 1)>>)
 NullKinds == ItemKinds \ {"x", "empty"}
 Item(kind, i) ==
   CASE kind = "x"      -> Stmt(<<Id("x" \o ToString(i))>>)
@@ -34,6 +37,7 @@ Item(kind, i) ==
     [] kind = "nnull"  -> Stmt(<<Stmt(<<NullT>>), Stmt(<<>>)>>)
     [] kind = "ecustom" -> Stmt(<<Custom("", "", ";", TRUE, <<Stmt(<<NullT>>)>>)>>)   \* a multi-line Custom group without delimiters, only nulls inside
     [] kind = "empty"  -> Stmt(<<EmptyT>>)
+    [] kind = "deepnull" -> DeepNull(45)
 \* constructs under test: every variadic construct of the table and four Custom shapes
 Customs == {"custom,", "custom;multi", "customnone", "custom,multi0"}
 ListConstructs == (VariadicNames \ {"qual"}) \cup Customs
@@ -57,8 +61,14 @@ ListCase(n, kinds) ==
                IN IF d.sep = <<>> \/ k = 0 THEN 0 ELSE k - 1,
    open |-> Flat(d.open), close |-> Flat(d.close), sep |-> Flat(d.sep)]
 ListCases == {ListCase(n, kinds) : n \in ListConstructs, kinds \in Seqs(ItemKinds, MaxArity)}
+\* LONG lists (dozens to hundreds of items, far beyond the exhaustive arities): a few repeating patterns of kinds
+LongPats == << <<"x", "empty", "x", "nil", "null", "x", "x", "estmt">>,
+               <<"empty", "x", "x", "x", "x", "x", "x", "x", "x", "x", "nnull">>,
+               <<"x", "x", "x", "x", "x", "x", "x", "x", "x", "x", "x", "x", "deepnull">> >>
+LongKinds(len, p) == [i \in 1..len |-> LongPats[p][((i - 1) % Len(LongPats[p])) + 1]]
+LongLens == {20, 70, 150}
 
-Idents(ps) == LET sel == SelectSeq(ps, LAMBDA p : p.c = "t" /\ \E i \in 1..9 : p.s = "x" \o ToString(i)) IN [i \in DOMAIN sel |-> sel[i].s]
+Idents(ps) == LET sel == SelectSeq(ps, LAMBDA p : p.c = "t" /\ \E i \in 1..200 : p.s = "x" \o ToString(i)) IN [i \in DOMAIN sel |-> sel[i].s]
 \* separators produced by the list itself: the pieces between open and close that equal the separator
 C13_Holds(cs) ==
   LET pv == Pieces(cs.variant)  pb == Pieces(cs.base) IN
@@ -244,6 +254,7 @@ CaseOf(st) == CASE st.u = "lists" -> ListCase(st.name, st.kinds)
                 [] st.u = "dicts" -> DictCase(st.alias, st.pairs)
                 [] st.u \in {"comments", "repeat"} -> st.cs
 Init == CASE Universe = "lists"    -> c \in {[u |-> "lists", name |-> n, kinds |-> <<>>] : n \in ListConstructs}
+                                        \cup {[u |-> "lists", name |-> n, kinds |-> LongKinds(len, p)] : n \in ListConstructs, len \in LongLens, p \in DOMAIN LongPats}
           [] Universe = "dicts"    -> c \in {[u |-> "dicts", alias |-> al, pairs |-> <<>>] : al \in {"", "zz"}}
           [] Universe = "comments" -> c \in {[u |-> "comments", cs |-> x] : x \in {y \in CmtCases : ValidCmt(y)}}
           [] Universe = "repeat"   -> c \in {[u |-> "repeat", cs |-> x] : x \in RepeatCases}
